@@ -79,6 +79,27 @@ fn client_hello(sni: &str) -> Vec<u8> {
     buf
 }
 
+/// a ClientHello made long by its ALPN list (`extra` unknown protocol names after http/1.1): larger than one read of the
+/// endpoint's look at the first bytes
+fn client_hello_big(sni: &str, extra: usize) -> Vec<u8> {
+    let mut config = rustls::ClientConfig::builder()
+        .with_safe_defaults()
+        .with_custom_certificate_verifier(Arc::new(NoVerify))
+        .with_no_client_auth();
+    config.alpn_protocols.push(b"http/1.1".to_vec());
+    for i in 0..extra {
+        config.alpn_protocols.push(format!("x-verif-padding-protocol-{:04}", i).into_bytes());
+    }
+    let mut conn = rustls::ClientConnection::new(Arc::new(config), sni.try_into().unwrap()).unwrap();
+    let mut buf = Vec::new();
+    while conn.wants_write() {
+        if conn.write_tls(&mut buf).is_err() {
+            break;
+        }
+    }
+    buf
+}
+
 struct NoVerify;
 impl rustls::client::ServerCertVerifier for NoVerify {
     fn verify_server_cert(
@@ -464,6 +485,26 @@ pub fn run_live(ctx: &mut Ctx) {
             };
             ctx.emit(&format!("c04 eval 1 {} {} {}", ip_token(&peer), hex(rnd), rt), ans);
             ctx.stat(&format!("live_tcp_{}{}", ans, if dual { "_dual_stack" } else { "" }));
+        }
+        // ---- TCP: long hellos (about 2, 6 and 14 KiB in one record): the random is in the first 43 bytes whatever follows ----
+        for (ri, rnd) in randoms.iter().enumerate().take(if ctx.thorough() { 8 } else { 3 }) {
+            let mut hello = client_hello_big(snis[(ri + li) % snis.len()], [60usize, 200, 480][ri % 3]);
+            if hello.len() < 1100 || hello[0] != 22 || hello[5] != 1 || 5 + u16::from_be_bytes([hello[3], hello[4]]) as usize != hello.len() {
+                ctx.notes.push(format!("c04live: unexpected shape of the long hello ({} bytes)", hello.len()));
+                continue;
+            }
+            hello[11..43].copy_from_slice(rnd);
+            let Ok(mut s) = std::net::TcpStream::connect(ep.addr) else { continue };
+            let _ = s.set_read_timeout(Some(Duration::from_millis(1500)));
+            let _ = s.write_all(&hello);
+            let mut buf = [0u8; 4096];
+            let ans = match s.read(&mut buf) {
+                Ok(0) | Err(_) => "deny",
+                Ok(_) if buf[0] == 0x16 => "allow",
+                Ok(_) => "other",
+            };
+            ctx.emit(&format!("c04 eval 1 {} {} {}", ip_token(&peer), hex(rnd), rt), ans);
+            ctx.stat(&format!("live_tcp_long_hello_{}", ans));
         }
         // ---- TCP: the same hello spread over two TLS records: the endpoint's look at the first record cannot determine
         // the random (C12), so the rules see it as unavailable - lists with a random pattern fail closed ----
